@@ -36,7 +36,7 @@ RULE = ("seeds = every valid form of C07/C13 (~60); all single insertions/replac
 ASSUMPTIONS = ["parse('now') is the documented special case and is not generated", "tz= values are valid timezones",
                "warnings from dateutil are silenced, not judged"]
 
-SEEDS = ["2020-02-29T10:11:12.123456+05:30", "2020-02-29T10:11:12Z", "2020-02-29 10:11:12", "2020-02-29", "20200229", "2020-060", "2020060",
+SEEDS = ["2020-02-29T10:11:12.123456+05:30", "2020-06-15T12:00:00-00:30", "20200615T120000-0045", "2020-06-15T12:00:00.000249-00:01", "2020-02-29T10:11:12Z", "2020-02-29 10:11:12", "2020-02-29", "20200229", "2020-060", "2020060",
          "2020-W09-6", "2020W096", "2020-W09", "2020W09", "2020-02", "2020", "20200229T101112Z", "20200229T101112,5-0530", "2020-02-29T10",
          "2020-02-29T10:11", "2020-02-29T10:11:12,123456789", "10:11:12", "10:11", "T101112", "10:11:12.5", "2020-02-29T10:11:12+05",
          "P1Y2M3DT4H5M6S", "P2W", "PT1.5S", "P1.5D", "PT0.000001S", "P1Y", "PT36H", "P1,5W", "P3DT4H", "PT5M", "P10Y11M",
